@@ -183,6 +183,16 @@ def map_type(cxx, typemap):
     words = words.strip()
     if words.startswith('typename '):
         words = words[9:]
+    m_mu = re.fullmatch(r'std::make_(un)?signed_t<(.+)>', words.replace(' ', ''))
+    if m_mu:
+        # R23: std::make_unsigned_t<T> / std::make_signed_t<T> of a fixed-width integer type
+        inner, _ = map_type(m_mu.group(2), typemap)
+        tbl_u = {'int8_t': 'uint8_t', 'int16_t': 'uint16_t', 'int32_t': 'uint32_t', 'int64_t': 'uint64_t', 'int': 'unsigned int', 'long': 'unsigned long', 'char': 'unsigned char'}
+        tbl_s = {v: k for k, v in tbl_u.items()}
+        if m_mu.group(1): base = tbl_u.get(inner, inner if inner in tbl_s or inner == 'size_t' else None)
+        else: base = tbl_s.get(inner, inner if inner in tbl_u else None)
+        if base is None: raise ExtractionBreak('R23: make_(un)signed_t of %r' % inner)
+        return const + base + ptr, is_ref
     if words in typemap:
         base = typemap[words]
     elif words in BASE_TYPEMAP:
@@ -508,6 +518,25 @@ class Body:
 
     def fire(self, rule, n=1):
         self.fired[rule] = self.fired.get(rule, 0) + n
+
+    # ---- R24: local alias declaration  `using A = T;`  ->  removed, A bound to the C spelling of T for the rest of this function
+    def r_using(self):
+        toks = self.toks
+        i = 0
+        while i < len(toks):
+            t = toks[i]
+            if t.k == 'id' and t.t == 'using':
+                a = next_sig(toks, i); e = next_sig(toks, a) if a is not None else None
+                if a is not None and e is not None and toks[a].k == 'id' and toks[e].t == '=':
+                    j = e + 1
+                    while not (toks[j].k == 'op' and toks[j].t == ';'): j += 1
+                    cty, _ = map_type(untok([x for x in toks[e + 1:j] if sig(x)]), self.ctx['typemap'])
+                    self.ctx['typemap'] = dict(self.ctx['typemap']); self.ctx['typemap'][toks[a].t] = cty
+                    del toks[i:j + 1]
+                    self.fire('R24using')
+                    continue
+            i += 1
+        self.toks = toks
 
     # ---- R7 rethrow-only try/catch
     def r_trycatch(self):
@@ -1648,6 +1677,7 @@ def extract_function(fn, unit, repo, filecache, contracts):
     body = Body(list(toks[fd.body_open:fd.body_close + 1]), ctx)
     throw_text = '{ op2_exc = 1; return%s; }' % ('' if cret == 'void' else ' op2_ret')
     prop_text = 'if (op2_exc) return%s;' % ('' if cret == 'void' else ' op2_ret')
+    body.r_using()
     body.r_trycatch()
     body.r_throw(throw_text)
     body.r_casts()
